@@ -8,6 +8,8 @@ import (
 	"context"
 	"errors"
 	"fmt"
+	"sort"
+	"strings"
 
 	pgx "github.com/jackc/pgx/v5"
 	"github.com/jackc/pgx/v5/pgconn"
@@ -114,11 +116,34 @@ func (t *pgTx) Query(ctx context.Context, sql string, args ...any) (pgx.Rows, er
 		return nil, err
 	}
 	k := string(args[0].([]byte))
+	r := &pgRows{t: t}
+	if strings.Contains(sql, ">=") {
+		// the listing query "SELECT key, value ... WHERE key >= $1": every visible row from that key on, in key order
+		// (the order an index scan gives - the most favourable one for a caller that stops at the first foreign key)
+		vis := map[string][]byte{}
+		for kk, vv := range t.s.committed {
+			vis[kk] = vv
+		}
+		for kk, vv := range t.ws {
+			vis[kk] = vv
+		}
+		var ks []string
+		for kk := range vis {
+			if kk >= k {
+				ks = append(ks, kk)
+			}
+		}
+		sort.Strings(ks)
+		for _, kk := range ks {
+			r.keys = append(r.keys, []byte(kk))
+			r.vals = append(r.vals, vis[kk])
+		}
+		return r, nil
+	}
 	v, ok := t.ws[k]
 	if !ok {
 		v, ok = t.s.committed[k]
 	}
-	r := &pgRows{t: t}
 	if ok {
 		r.vals = [][]byte{v}
 	}
@@ -128,6 +153,7 @@ func (t *pgTx) Query(ctx context.Context, sql string, args ...any) (pgx.Rows, er
 type pgRows struct {
 	pgx.Rows
 	t    *pgTx
+	keys [][]byte // listing query only
 	vals [][]byte
 	i    int
 }
@@ -137,6 +163,11 @@ func (r *pgRows) Scan(dest ...any) error {
 	if err := r.t.s.tick("scan"); err != nil {
 		r.t.aborted = true
 		return err
+	}
+	if len(dest) == 2 {
+		*(dest[0].(*[]byte)) = append([]byte{}, r.keys[r.i-1]...)
+		*(dest[1].(*[]byte)) = append([]byte{}, r.vals[r.i-1]...)
+		return nil
 	}
 	*(dest[0].(*[]byte)) = append([]byte{}, r.vals[r.i-1]...)
 	return nil
